@@ -228,11 +228,11 @@ func (st *msState) resolve(sym string, prev *msReqLog) string {
 		s := st.mi.m.streams[len(st.mi.m.streams)-1]
 		return fmt.Sprintf("%s?_HLS_msn=%d&_HLS_part=%d", mediaPlaylistPath(s.id), open, published)
 	case sym == "PH":
-		return partPath(ls.prefix, ls.id, ls.nextPartID)
+		return vPartPath(ls.prefix, ls.id, ls.nextPartID)
 	case sym == "PH+1":
-		return partPath(ls.prefix, ls.id, ls.nextPartID+1)
+		return vPartPath(ls.prefix, ls.id, ls.nextPartID+1)
 	case sym == "INIT":
-		return initFilePath(ls.prefix, ls.id)
+		return vInitFilePath(ls.prefix, ls.id)
 	case sym == "SEG": // newest complete segment
 		for i := len(ls.segments) - 1; i >= 0; i-- {
 			if p := ls.segments[i].getPath(); p != "" {
@@ -249,7 +249,7 @@ func (st *msState) resolve(sym string, prev *msReqLog) string {
 		return "none.mp4"
 	case sym == "PART": // newest published part
 		if ls.nextPartID > 0 {
-			return partPath(ls.prefix, ls.id, ls.nextPartID-1)
+			return vPartPath(ls.prefix, ls.id, ls.nextPartID-1)
 		}
 		return "none.mp4"
 	case sym == "UNK":
